@@ -142,7 +142,7 @@ def write_case(ctx, seed):
                         evs.insert(i + 1, twin)
                         i += 1
                 i += 1
-    mid = genfile.midifile_of(fmt, div, tracks)
+    mid = genfile.midifile_of(fmt, div, tracks, rng=random.Random(f'{seed}:assembly') if rng.random() < 0.5 else None)
     for ti, i in loaded_at:
         m = mid.tracks[ti][i]
         mid.tracks[ti][i] = Message.from_bytes(m.bytes(), time=m.time)
